@@ -115,6 +115,8 @@ pub struct Cfg {
     pub il: u8,
     pub efdt: u16,
     pub fdt_dur: u64,
+    /// default OTI can carry an FDT (false: Reed-Solomon GF(2^8) E=B=1, max transfer length 255 bytes)
+    pub fits: bool,
     pub queues: BTreeMap<u32, u32>,
 }
 
@@ -141,6 +143,8 @@ pub struct SchedEngine {
     rr_last: BTreeMap<u64, BTreeSet<u64>>,
     pub nontrivial: BTreeSet<&'static str>,
     pub ticks_used: bool,
+    pub publishes: u64,
+    pub starts_total: u64,
 }
 
 impl SchedEngine {
@@ -165,6 +169,8 @@ impl SchedEngine {
             rr_last: BTreeMap::new(),
             nontrivial: BTreeSet::new(),
             ticks_used: false,
+            publishes: 0,
+            starts_total: 0,
         }
     }
 
@@ -186,6 +192,35 @@ impl SchedEngine {
             Some(('t', t)) => div_tick(t.saturating_sub(now), o.n_sym),
             _ => 0,
         }
+    }
+
+    /// explicit measure bounding the number of consecutive non-empty reads at ONE instant (C12 read_terminates):
+    /// remaining packets of the transfers in progress + (2 max(1,max_transfer_count) + 1) transfers per object
+    /// still in the sender + two transfers of every FDT instance that exists or can still be published now
+    pub fn mu(&self) -> u64 {
+        let cfg = match self.cfg.as_ref() {
+            Some(c) => c,
+            None => return 0,
+        };
+        let mut m: u64 = 0;
+        let mut future_starts: u64 = 0;
+        let mut nobj: u64 = 0;
+        for o in self.objs.values() {
+            if o.gone && !o.in_transfer {
+                continue;
+            }
+            nobj += 1;
+            if o.in_transfer {
+                m += o.n_pk.saturating_sub(o.sent);
+            }
+            if o.removed.is_none() {
+                m += (2 * o.burst() + 1) * o.n_pk;
+                future_starts += 2 * o.burst() + 1;
+            }
+        }
+        let fdt_pk = (1500 + 600 * (self.objs.len() as u64 + nobj)) / (cfg.efdt.max(1) as u64) + 2;
+        let pubs = self.publishes + self.starts_total + future_starts + 2;
+        m + 2 * pubs * fdt_pk
     }
 
     pub fn fdt_table_line(&self) -> String {
@@ -239,12 +274,12 @@ impl SchedEngine {
     }
 
     fn exec_new(&mut self, t: &[&str]) -> String {
-        // new <f|b> <d|i> <carNs> <fdtDurNs> <startId> <il> <efdt> <nq> (<prio> <mux>)*
-        if t.len() < 9 {
+        // new <f|b> <d|i> <carNs> <fdtDurNs> <startId> <il> <efdt> <fits> <nq> (<prio> <mux>)*
+        if t.len() < 10 {
             return "bad-op".into();
         }
         let n: Vec<u64> = t[3..].iter().filter_map(|x| x.parse().ok()).collect();
-        if n.len() != t.len() - 3 || n.len() < 6 || n.len() != 6 + 2 * n[5] as usize {
+        if n.len() != t.len() - 3 || n.len() < 7 || n[5] > 1 || n.len() != 7 + 2 * n[6] as usize {
             return "bad-op".into();
         }
         let full = match t[1] {
@@ -259,10 +294,11 @@ impl SchedEngine {
         };
         let mut queues = BTreeMap::new();
         let mut pq = BTreeMap::new();
-        for i in 0..n[5] as usize {
-            queues.insert(n[6 + 2 * i] as u32, n[7 + 2 * i] as u32);
-            pq.insert(n[6 + 2 * i] as u32, PriorityQueue::new(n[7 + 2 * i] as u32));
+        for i in 0..n[6] as usize {
+            queues.insert(n[7 + 2 * i] as u32, n[8 + 2 * i] as u32);
+            pq.insert(n[7 + 2 * i] as u32, PriorityQueue::new(n[8 + 2 * i] as u32));
         }
+        let fits = n[5] == 1;
         let config = Config {
             fdt_duration: Duration::from_nanos(n[1]),
             fdt_carousel_mode: car,
@@ -273,12 +309,20 @@ impl SchedEngine {
             toi_initial_value: Some(1),
             ..Default::default()
         };
-        let oti = Oti::new_no_code(n[4] as u16, 1024);
+        let oti = if fits {
+            Oti::new_no_code(n[4] as u16, 1024)
+        } else {
+            // max_transfer_length = E * B * 255 = 255 bytes: no FDT instance fits, Fdt::publish fails
+            match Oti::new_reed_solomon_rs28(1, 1, 1) {
+                Ok(o) => o,
+                Err(_) => return "bad-op".into(),
+            }
+        };
         let ep = UDPEndpoint::new(None, "224.0.0.1".to_owned(), 3400);
         let mut s = Sender::new(ep, 1, &oti, &config);
         s.subscribe(Arc::new(Sub(self.events.clone())));
         self.sender = Some(s);
-        self.cfg = Some(Cfg { full, start_id: n[2] as u32, il: n[3] as u8, efdt: n[4] as u16, fdt_dur: n[1], queues });
+        self.cfg = Some(Cfg { full, start_id: n[2] as u32, il: n[3] as u8, efdt: n[4] as u16, fdt_dur: n[1], fits, queues });
         "ok".into()
     }
 
@@ -483,7 +527,7 @@ impl SchedEngine {
             }
             if is_start {
                 self.on_start(toi, now, &ticks_now, o);
-                if !full {
+                if !full && self.cfg.as_ref().unwrap().fits {
                     self.pending_new_fdt = true;
                 }
             } else {
@@ -635,6 +679,7 @@ impl SchedEngine {
             }
         }
         ob.in_transfer = true;
+        self.starts_total += 1;
         ob.starts += 1;
         ob.sent = 0;
         ob.seen.clear();
@@ -763,10 +808,19 @@ impl SchedEngine {
     fn on_pkt(&mut self, toi: u64, sbn: u32, esi: u32, b: bool, now: u64, ready: &[(u32, u64, bool)], blocked: &[(u32, u64)], o: &mut Oracle) -> String {
         self.obj_pkts += 1;
         let full = self.cfg.as_ref().unwrap().full;
-        let il = self.cfg.as_ref().unwrap().il.max(1) as usize;
+        let il = self.cfg.as_ref().unwrap().il.max(1) as usize; // 0 is clamped to 1 by Sender::new
         if !self.announced.contains(&toi) {
+            let fits = self.cfg.as_ref().unwrap().fits;
             o.fail(
-                if full { "C11:unpublished-sent" } else { "C11:announce-before-send" },
+                if full {
+                    "C11:unpublished-sent"
+                } else if !fits {
+                    // ObjectsBeingTransferred + default OTI that cannot carry any FDT: the automatic publication
+                    // at transfer start fails and the error is swallowed (fdt.rs get_next_file_transfer)
+                    "C11:announce-before-send-publish-refused"
+                } else {
+                    "C11:announce-before-send"
+                },
                 &format!("packet of object {} although no FDT instance listing it has been sent completely", toi),
             );
         }
@@ -893,9 +947,9 @@ impl SchedEngine {
         // pacing lower bound
         if let Some(tk) = ob.tick {
             let n = ob.n_sym as u128;
-            let lhs = (now as u128 - ob.t_start as u128) * n + (idx as u128) * n;
+            let lhs = ((now as u128).saturating_sub(ob.t_start as u128)) * n + (idx as u128) * n;
             if lhs < (idx as u128) * (ob.tdur as u128) {
-                o.fail("C14:pacing-early", &format!("packet {} of {} at start+{} ns, target {} ns over {} packets (tick {})", idx, toi, now - ob.t_start, ob.tdur, n, tk));
+                o.fail("C14:pacing-early", &format!("packet {} of {} at start+{} ns, target {} ns over {} packets (tick {})", idx, toi, now.saturating_sub(ob.t_start), ob.tdur, n, tk));
             }
         }
         if let Some(s) = ob.eff_start {
@@ -962,6 +1016,7 @@ impl Engine for SchedEngine {
                             }
                         }
                         self.pending_new_fdt = true;
+                        self.publishes += 1;
                         "ok".into()
                     }
                     Ok(Err(_)) => "ERR".into(),
